@@ -811,7 +811,17 @@ fn respond(line: &str) -> R {
                     })
                     .collect::<Result<Vec<_>, String>>()?;
                 out.push(node("Keys", "", results));
+                // every result mapped forward again by the crate's own `Substitutions::apply`
+                let backs = subs
+                    .substitute(&key)
+                    .map(|result| {
+                        let (bounded, trait_) = subs.apply(&result);
+                        Ok(node("Key", "", vec![ser_type(&bounded.0)?, ser_path(&trait_.0)?]))
+                    })
+                    .collect::<Result<Vec<_>, String>>()?;
+                out.push(node("Backs", "", backs));
             } else {
+                out.push(leaf("None", ""));
                 out.push(leaf("None", ""));
                 out.push(leaf("None", ""));
             }
